@@ -13,7 +13,7 @@ rm -rf $WT; git -C /repo worktree prune; mkdir -p /tmp/seedc
 git -C /repo worktree add -q --detach $WT HEAD || exit 2
 mkar() { rm -f $WT/src/.libs/libcif.a; ar rcs $WT/src/.libs/libcif.a $WT/src/.libs/*.o; }   # the checkout builds the shared library only
 cd $WT && ./configure -q >/dev/null 2>&1 && make -j8 >/dev/null 2>&1 && mkar || { echo "$NAME: clean build failed"; exit 2; }
-sed "s#/tmp/seed2\?/[A-Za-z0-9_]*#$WT#g" $SRC/demo.c > $WT/demo.c
+sed "s#/tmp/seed[23]\?/[A-Za-z0-9_]*#$WT#g" $SRC/demo.c > $WT/demo.c
 gcc -g -w -I$WT/src -I$WT demo.c $WT/src/.libs/libcif.a $LIBS -o demo_clean 2>demo_build.log || { echo "$NAME: demo does not compile"; cat demo_build.log | head; exit 2; }
 timeout 120 ./demo_clean > demo_clean.out 2>&1; RC_CLEAN=$?
 git apply $SRC/patch.diff || { echo "$NAME: patch does not apply to HEAD"; exit 2; }
